@@ -115,7 +115,7 @@ def run_case(ctx, case):
         if o["op"] in ("epr_keep", "epr_seq", "epr_context"):
             plan.append(PlannedRequest(o["role"], "K", o["n"]))
     es = EPRSocket("bob")
-    link = LinkModel(plan)
+    link = LinkModel(plan, partners=False)
     pipe = Pipe(epr_sockets=[es], link=link, max_qubits=case["budget"], hardware=case["hardware"],
                 transpile=case["transpile"], script=[0, 1, 1, 0, 1, 0, 0, 1] * 4)
     ex = pipe.ex
